@@ -113,7 +113,10 @@ def explore(world0, name='', max_states=200000, max_seconds=600.0, max_depth=400
                     if depth >= max_depth:
                         raise Violation('termination', f'run did not finish within {max_depth} steps')
                     if w2.done():
+                        n0 = len(w2.facts)
                         w2.final()
+                        for f in w2.facts[n0:]:
+                            res.facts[f] = res.facts.get(f, 0) + 1
                         dgb = w2.digest()
                         if dgb not in res.terminal_digests:
                             res.terminal_digests.add(dgb)
